@@ -1026,6 +1026,7 @@ class Runner:
         # does the value hold a valid but unparsable setting (verbatim multi-code, unknown code, …)?  Then its
         # first rendering is not optimised.
         nongroup = any(q.valid and not q.parsable for p in x._fmts.values() for q in p.add)
+        x0 = x.copy()
         out, fv = self.framed([x], lambda: self.call(lambda: (x.simplify(), x)[1]))
         self.count('simplify', out)
         viol = self.c09(out, 'simplify', '') + fv
@@ -1044,16 +1045,32 @@ class Runner:
                 s1 = str(x)
                 y = x.copy(); y.simplify()
                 s2 = str(y)
+                def settles(v):
+                    # does repeated simplify() reach a fixed rendering within four more rounds?
+                    v = v.copy(); last = str(v)
+                    for _ in range(4):
+                        v.simplify()
+                        if str(v) == last: return True
+                        last = str(v)
+                    return False
                 if s2 != s1:
-                    z = y.copy(); z.simplify()
                     same = T.run(s1, {})[0] == T.run(s2, {})[0]
-                    viol.append(('C03', 'simplify_idem', 'display_same=%r converges=%r: %r then %r' % (same, str(z) == s2, s1, s2)))
-                p1 = str(self.A(s1))
+                    viol.append(('C03', 'simplify_idem', 'display_same=%r settles=%r settings_same=%r: %r then %r' % (
+                        same, settles(y), O.same_settings_modulo_order(x, y), s1, s2)))
+                pv = self.A(s1)
+                p1 = str(pv)
                 if p1 != s1:
-                    p2 = str(self.A(p1))
                     same = T.run(s1, {})[0] == T.run(p1, {})[0]
-                    viol.append(('C03', 'render_fixed_point', 'display_same=%r converges=%r: %r then %r' % (same, p2 == p1, s1, p1)))
+                    viol.append(('C03', 'render_fixed_point', 'display_same=%r settles=%r settings_same=%r: %r then %r' % (
+                        same, settles(pv), O.same_settings_modulo_order(x, pv), s1, p1)))
             viol += self.health(x, 'simplify')
+            if self.rng.random() < 0.3:
+                # the immutable class: same result (so everything above holds for it), receiver untouched
+                ra = self.call(lambda: self.S(x0).simplify())
+                if ra[0] != 'ok' or type(ra[1]) is not self.S or ra[1].base_str != x._s or str(ra[1]) != str(x) \
+                        or [ra[1].settings_at(i) for i in range(len(x._s))] != [x.settings_at(i) for i in range(len(x._s))]:
+                    viol.append(('C03', 'simplify_ansistr', 'AnsiStr(%r).simplify() gives %r, AnsiString.simplify() %r' % (
+                        pre.render[0], str(ra[1]) if ra[0] == 'ok' else ra[1], str(x))))
         self.emit('simplify', inp, self.outcome_line(out, P.ok_astr), 'simplify %r' % (pre.render[0],), viol)
 
     def op_roundtrip(self):
